@@ -87,6 +87,7 @@ func runC16Once(c c16Case, st *hx.Stats) (c16Result, error) {
 		time.Sleep(30 * time.Millisecond)
 		baseFD = fdCount()
 	}
+	lastBegin := time.Now() // the begin of the connect counts as the begin of "the previous request" (taken before dialling: the server cannot arm its deadline earlier)
 	conn, err := hx.Dial(addr)
 	if err != nil {
 		return res, err
@@ -95,7 +96,6 @@ func runC16Once(c c16Case, st *hx.Stats) (c16Result, error) {
 	conn.Timeout = T + slack + 2*time.Second
 	m := hx.NewModel(root, false)
 	m.MaskATime = true
-	lastBegin := time.Now() // the connect counts as the begin of "the previous request"
 	step := func(r hx.Req) error {
 		lastBegin = time.Now()
 		return m.Step(conn, r)
